@@ -376,10 +376,62 @@ def sub_inflight(col, budget, seed, tier, shard, nshards):
     run_given(col, inflight_scenario(tier), check, budget, seed, tier, "inflight")
 
 
+# ---- several markets in ONE recording: all time seen by strategies is the publish time of the book being processed ----
+
+
+@st.composite
+def combined_case(draw, tier="quick"):
+    """2-3 markets in one recording (an event-level file) whose updates do not fall on a common grid: the data layer
+    then hands the framework events with several books, each carrying the publish time of its own last update (a
+    market that did not change is re-emitted with its old book).  No closures (a closed book would be re-emitted with
+    every later message) and no orders: only the clock clause is judged."""
+    nm = draw(st.integers(2, 3))
+    markets = []
+    for mi in range(nm):
+        spec = world.default_market(mi, 2, event=0)
+        spec["start_pt"] = world.BASE_PT + draw(st.sampled_from([0, 7, 500, 1300]))
+        n = draw(st.integers(2, 8 if tier == "quick" else 20))
+        feats = {"remove": 0, "suspend": 1, "inplay": 1, "books": 5, "trades": 2, "close": False, "max_dt_ms": draw(st.sampled_from([200, 2000]))}
+        steps, states = draw(gen.timeline(spec, n, feats))
+        spec["steps"] = steps
+        markets.append(spec)
+    return {"combined": True, "combined_file": True, "markets": markets, "event_processing": False,
+            "strategies": [gen.strategy_spec("A", script=[])], "clients": [{"min_bet_validation": False}], "config": {}}
+
+
+def check_combined(sc):
+    if len(sc.get("markets", ())) < 2 or any(s_.get("k") == "close" for m in sc["markets"] for s_ in m.get("steps", ())):
+        return False, {"minimised-away"}
+    lb = simlab.run_scenario(sc, snapshot_cbs=("check_market_book", "process_market_book"))
+    if lb.error is not None:
+        raise crash_violation(lb.error, sc, "run-aborted")
+    stale = 0
+    last_pt = {}
+    for rec in lb.log:
+        if rec["cb"] not in ("check_market_book", "process_market_book") or rec["pt"] is None:
+            continue
+        if _ms(rec["now"]) != _ms(rec["pt"]):
+            raise Violation("clock-not-publish-time", ("several-markets-in-one-recording", rec["cb"]),
+                            "market %s: %s saw utcnow() %s while processing the book published %s" % (rec["market"], rec["cb"], rec["now"], rec["pt"]), sc)
+        if rec["cb"] == "check_market_book":
+            if last_pt.get(rec["market"]) == rec["pt"]:
+                stale += 1
+            last_pt[rec["market"]] = rec["pt"]
+    return stale > 0, {"several-markets-in-one-recording", "unchanged-book-re-emitted" if stale else "every-book-fresh"}
+
+
+def sub_combined(col, budget, seed, tier, shard, nshards):
+    run_given(col, combined_case(tier), check_combined, budget, seed, tier, "combined")
+
+
 def subchecks(tier):
     return [SubCheck("runs", sub_runs, 3000 if tier == "quick" else 100000),
-            SubCheck("inflight", sub_inflight, 1500 if tier == "quick" else 40000)]
+            SubCheck("inflight", sub_inflight, 1500 if tier == "quick" else 40000),
+            SubCheck("combined", sub_combined, 400 if tier == "quick" else 10000)]
 
 
 def replay(c, sub=None):
+    if c.get("combined"):
+        check_combined(c)
+        return
     check(c)
